@@ -833,7 +833,7 @@ def _reraises_same(h: ast.ExceptHandler) -> bool:
 
 # ----------------------------------------------------------------------- C01-R7
 def rule_one_deadline(ctx, rep, rid: str) -> None:
-    rep.rule(rid, "every interpreter created while a script is running inherits the running interpreter's start_time, and the function that stamps start_time does not overwrite an inherited value", floor=3)
+    rep.rule(rid, "every interpreter created while a script is running inherits the running interpreter's start_time, and the function that stamps start_time does not overwrite an inherited value", floor=2)
     t = ctx.tree
     df, _ = ctx.facts.vm_dispatcher()
     vmcls = df.cls
@@ -870,7 +870,10 @@ def rule_one_deadline(ctx, rep, rid: str) -> None:
         if var is not None:
             for n in f.own_nodes():
                 if isinstance(n, ast.Assign) and any(norm(tg) == f"{var}.start_time" for tg in n.targets) and "start_time" in norm(n.value):
-                    if not guards_of(n, f.node) or all("start_time" in norm(g) or "_current_vm" in norm(g) for g, _ in guards_of(n, f.node)):
+                    from ..util import single_assignments, subst
+
+                    env_ = single_assignments(f)
+                    if not guards_of(n, f.node) or all("start_time" in norm(subst(g, env_)) or "_current_vm" in norm(subst(g, env_)) for g, _ in guards_of(n, f.node)):
                         inherits = True
         if not inherits:
             rep.bad(rid, key, f"nested interpreter created in script-reachable {f.qual} does not inherit the running interpreter's start_time (it gets a fresh or missing deadline)", loc)
